@@ -1133,6 +1133,10 @@ def check(program, rep):
     # a tree shared between nets collects the leaves of both (C01-R3)
     from . import C01
     rep.guard("C01-R3", C01.tree_per_net, program, rep)
+    # the hops added for a destination follow the vector from the chip the
+    # walk starts at (C11-R5)
+    from . import C11
+    rep.guard("C11-R5", C11.r5_walk_vector, program, rep)
     # arguments handed to package functions under the wrong name / same-
     # named optional parameters not passed on (NAMELINK, DESIGN.md 9.13)
     from .. import namelink as _nl
